@@ -19,7 +19,7 @@ def main():
     labs = [l.strip() for l in body.split(";") if l.strip()]
     tail = []
     for i, l in enumerate(labs):
-        if l.startswith("F "):
+        if l[:2] in ("F ", "G ", "H "):
             tail = labs[i:]
             labs = labs[:i]
             break
